@@ -217,8 +217,21 @@ def build_traces(path, tier, seed):
                 a[int(rng.integers(0, (n - 1) // pps + 1)) * pps if rng.random() < 0.6 else int(rng.integers(n))] = rng.choice([-1, 1]) * rng.uniform(0.3, 2.0)
         elif kind == 2:
             a, _ = gen.record(rng, n, amp=float(rng.uniform(0.05, 3.0)))
-        else:               # values exactly at the gate 0.025 g and just around it
-            a = rng.choice([0.0, 0.025 * 9.81, -0.025 * 9.81, 0.2, 0.3], size=n) * 1.0
+        else:               # values exactly at the gate 0.025 g and just around it: per one-second window either everything below the
+            #                     gate, or a peak EXACTLY at the gate (inside the window, nothing above it), or samples above it
+            a = np.zeros(n)
+            gate = 0.025 * 9.81
+            for w_ in range(0, max(1, (n - 1) // pps)):
+                lo_, hi_ = w_ * pps + 1, min((w_ + 1) * pps, n - 1)          # interior samples of the window (its end points stay 0)
+                if hi_ <= lo_:
+                    continue
+                m_ = int(rng.integers(3))
+                seg = rng.choice([0.0, 0.1, -0.1, 0.05], size=hi_ - lo_)
+                if m_ == 1:
+                    seg[int(rng.integers(len(seg)))] = gate * float(rng.choice([1.0, -1.0]))
+                elif m_ == 2:
+                    seg[int(rng.integers(len(seg)))] = float(rng.choice([0.3, -0.26, gate * 1.0000001]))
+                a[lo_:hi_] = seg
         if i % 3 == 1:          # ... which is the only part of the record that reaches the gate
             a = np.clip(a, -0.1, 0.1)
             a[-max(2, pps // 2):] = rng.choice([-1, 1]) * rng.uniform(0.5, 2.0)
